@@ -695,6 +695,9 @@ def generate(rng, tier):
             g.b64enc(bs, o)
         for txt in ("", "AA==", "AA", "AAA=", "AAA", "AAAA", "A", "A===", "=", "====", "AB==", "AAB=", "AA=A", "AA==AAAA", "+/+/", "-_-_", "AAAA\n"):
             g.b64dec([ord(c) for c in txt], o, mut="fixed")
+    for otext, err in [("[charset(foo)]", "domain_error(charset,foo)"), ("[padding(maybe)]", "type_error(boolean,maybe)"),
+                       ("[padding(1)]", "type_error(boolean,1)"), ("[_]", "instantiation_error"), ("[charset(1)]", "type_error(atom,1)")]:
+        g.add("b64enc", 'catch(chars_base64("abc",B,%s), error(E,_), true).' % otext, None, bad=True, expect_err=err, opts=otext, codes=[97, 98, 99])
     g.u8enc([]); g.u8enc(BOUND_CP); g.u8enc([0x10ffff] * 50)
     g.u8dec([]); g.u8dec(list(range(128)))
     for bs in Gen.OVERLONG + Gen.SURR + Gen.TOOBIG + [[0x80], [0xbf], [0xff], [0xe2], [0xe2, 0x88], [0xf0, 0x9f, 0x98], [0xe2, 0x41], [0xe2, 0x88, 0x41],
@@ -793,7 +796,8 @@ def judge(c, impl, model, findings, stats):
         return bad("violation", "hex-decode", "hex_bytes(+Hex, -Bytes) differs from the reference: %s" % raw[:300], impl=raw[:80])
     if fam == "b64enc":
         if c.get("bad"):
-            stats["errors"]["b64enc:domain_error(octet_character)"] = stats["errors"].get("b64enc:domain_error(octet_character)", 0) + 1
+            ek = "b64enc:" + c["expect_err"].split("(")[0] + ("(octet_character)" if "octet" in c["expect_err"] else "")
+            stats["errors"][ek] = stats["errors"].get(ek, 0) + 1
             if e == c["expect_err"]:
                 return True
             return bad("violation", "b64-encode-error", "expected %s, got %s" % (c["expect_err"], raw[:200]), impl=raw[:80])
@@ -865,7 +869,10 @@ def judge(c, impl, model, findings, stats):
             stats["errors"].get("utf8dec:ill-formed:" + ("repr" if iv == "repr" else "replaced" if model_ok(iv) is not None and 0xfffd in model_ok(iv) else "other"), 0) + 1
         got = model_ok(iv)
         if got is not None and 0xfffd not in got:
-            return bad("violation", "ill-formed-accepted",
+            # `overlong-accepted`: exactly what the mirror of the clauses at HEAD does (finding C37-1);
+            # anything else that is accepted silently is a different defect.
+            cls = "overlong-accepted" if iv == mech else "ill-formed-accepted"
+            return bad("violation", cls,
                        "ill-formed UTF-8 (RFC 3629 / Unicode Table 3-7) is decoded to characters %r without U+FFFD or an error" % (got,), impl=iv[:80])
         if iv != mech and iv != mechfix:
             return bad("disagreement", "utf8-mech-model", "mechanism model %s (HEAD) / %s (patched), implementation %s" % (mech, mechfix, iv))
@@ -972,6 +979,14 @@ def run(ctx):
             distinct.add(c["query"])
         n = len(c.get("bytes") or c.get("codes") or []) if c["family"] not in ("digest", "aead") else c.get("n", 0)
         lens["0" if n == 0 else "1-16" if n <= 16 else "17-64" if n <= 64 else "65-200" if n <= 200 else ">200"] += 1
+    # one finding of every (family, class) first, so that a frequent class cannot crowd the others
+    # out of the (limited) list of reported replays
+    firsts, rest, seen_fc = [], [], set()
+    for f in findings:
+        k = (f.sig.get("family"), f.sig.get("class"))
+        (rest if k in seen_fc else firsts).append(f)
+        seen_fc.add(k)
+    findings = firsts + rest
     samples = [c["query"][:300] for c in cases[:2]] + [c["query"][:300] for c in cases[len(cases) // 2: len(cases) // 2 + 2]] + [c["query"][:300] for c in cases[-2:]]
     return {
         "evaluations": len(cases),
